@@ -24,6 +24,21 @@ CLAIMED = {
    note="Python layer only: that the C pipeline's raw features have the declared power needs a scaled molecule end to end and is outside; densities above the cutoffs on both sides of the scaling; tau >= tau_W; one sample point.",
    technique="symbolic execution (exact reals, symbolic exponents via exp/log atoms) + canonical polynomial normal form + z3",
    design="4/C03"),
+ "C04": dict(
+   text="The real evaluator assembly code (KernelEvalBase(2), MappedDFTKernel(2), MappedXC(2)) is executed symbolically in SEP/NPOL/POL for nspin 1 and 2 with several evaluators and kernels accumulating into shared buffers and a symbolic rhocut; with verified leaves replaced by contract stubs z3 shows on every path that dres = d(res)/d(X0T) and vrho_tuple = d(res)/d(rho tuple) and that points below the cutoff give exactly zero value and derivative; every native baseline in BASELINE_CODES, the libxc same-spin/opposite-spin splits (libxc by contract) and GlobalLinearEvaluator are decided on their real formulas.",
+   note="one sample point; contract stubs = uninterpreted differentiable functions (their contracts are what C12/C04 leaf harnesses prove); libxc trusted (v = dE/d.); SplineSetEvaluator (numba) and NNEvaluator (torch) outside; C and Python kernel evaluators are under C11/C15.",
+   technique="symbolic execution with assume-guarantee contract stubs + automatic differentiation + polynomial normal form + z3; finite-difference replay with concrete smooth leaves",
+   design="4/C04"),
+ "C01": dict(
+   text="Link-by-link: (L1) the real eval_xc_cider and everything it orchestrates (semilocal and fractional-Laplacian plans incl. get_s2/alpha derivatives, normaliser list, MappedXC/MappedXC2, baselines, xmix, additive semilocal part) is executed symbolically for 4 semilocal modes x nspin x SEP/NPOL/POL x both evaluator versions x feature layouts, and z3 shows vxc, vxc_nldf, vxc_sdmx equal the mechanical derivative of exc*n on every path. Further links (plan, generator, matrix assembly) are added as they are built; the end-to-end claim is the chain rule over the links.",
+   note="grid points 1-2; region rho > 1e-6, tau > tau_W (clamps are C08); leaves by contract (C12, C04); libxc/PySCF eval_xc_eff trusted; links L2/L3/L5 see DESIGN.md for which are built.",
+   technique="symbolic execution of the orchestration code with contract stubs + automatic differentiation + z3",
+   design="4/C01"),
+ "C07": dict(
+   text="The exponent routines, the semilocal plan and the whole eval_xc_cider chain are executed symbolically twice (polarised / unpolarised, or with spin labels exchanged) and z3 decides term-by-term equality: closed shell through nspin=2 equals nspin=1 (energy density and per-channel potentials), swapping channels swaps potentials, and E[a,b] = (E[2a]+E[2b])/2 for SEP models.",
+   note="one grid point; composites on rho > 1e-6 per channel; non-local raw inputs related by the generators' nspin factors; MappedXC2 compared in SEP mode only (libxc's own spin consistency is trusted, not decidable for an uninterpreted functional).",
+   technique="symbolic execution of both spin paths + z3 equality of the resulting terms",
+   design="4/C07"),
 }
 
 NOT_YET = {}
